@@ -3,10 +3,10 @@ package main
 // The SSA interpreter: one VM = one path (re-execution under a decision prefix).
 
 import (
-	"os"
 	"fmt"
 	"go/token"
 	"go/types"
+	"os"
 	"strings"
 	"sync"
 
@@ -56,31 +56,31 @@ type VM struct {
 	cur         Model
 	curValid    bool
 
-	inputs     []*Term
-	steps      int
-	nobj       int
-	heapBytes  int
-	globals    map[*ssa.Global]*Obj
-	inited     map[*ssa.Package]bool
-	offCache   map[*types.Struct][]int
-	strCache   map[string]Str
-	observed   []*Term
-	reached    map[string]bool
-	assertsHit map[string]int
+	inputs                                       []*Term
+	steps                                        int
+	nobj                                         int
+	heapBytes                                    int
+	globals                                      map[*ssa.Global]*Obj
+	inited                                       map[*ssa.Package]bool
+	offCache                                     map[*types.Struct][]int
+	strCache                                     map[string]Str
+	observed                                     []*Term
+	reached                                      map[string]bool
+	assertsHit                                   map[string]int
 	assertsFolded, assertsSolver, assertsSkipped int
-	decisions  int
-	violation  *Violation
-	inconcl    []string
-	callDepth  int
-	recoverStk []*frame
-	stubsHit   map[string]int
-	fnsHit     map[*ssa.Function]int
-	sched      *scheduler
-	wgs        map[wgKey]*int
-	lastPos    token.Pos
-	curFn      *ssa.Function
-	forceInit  *ssa.Function
-	stack      []*ssa.Function
+	decisions                                    int
+	violation                                    *Violation
+	inconcl                                      []string
+	callDepth                                    int
+	recoverStk                                   []*frame
+	stubsHit                                     map[string]int
+	fnsHit                                       map[*ssa.Function]int
+	sched                                        *scheduler
+	wgs                                          map[wgKey]*int
+	lastPos                                      token.Pos
+	curFn                                        *ssa.Function
+	forceInit                                    *ssa.Function
+	stack                                        []*ssa.Function
 }
 
 type frame struct {
